@@ -27,21 +27,21 @@ TRACE_INV = ["C10_TwoObservations", "C10_UsableEvidence", "C11_NeedsEvidence", "
 TRACE_PROPS = ["C10_Complete", "C11_StaleIgnored", "C11_Steady", "C11_SteadyObs", "C12_Partition", "C13_Publish"]
 
 
-def consts(phi, window, maxi, prior, model):
+def consts(phi, window, maxi, prior, model, dead_grace=100000):
     c = dict(G.BASE)
     c.update({"Node": vlib.tla_set(["n1", "x"]), "Writers": "{}", "Key": "{}", "Val": "{}",
               "Advances": "{1, 2, 3}" if model else "{}", "MaxVer": 0, "MaxInflight": 0,
               "MaxClock": 9, "MaxHb": 99, "TrackHb": "TRUE", "PhiN": phi[0], "PhiD": phi[1],
-              "Window": window, "MaxInterval": maxi, "Prior": prior, "DeadGrace": 100000,
+              "Window": window, "MaxInterval": maxi, "Prior": prior, "DeadGrace": dead_grace,
               "Enable": "{}", "Heartbeats": "{1, 2, 3, 4}" if model else "{}",
               "MaxArrivals": 5 if model else 0, "KeepPath": "TRUE" if model else "FALSE"})
     return c
 
 
-def hcfg(phi, window, maxi, prior):
+def hcfg(phi, window, maxi, prior, dead_grace=100000):
     return {"nodes": ["n1", "x"], "grace": 2,
             "fd": {"phi": phi[0] / phi[1], "window": window, "max_interval": maxi,
-                   "initial": prior, "dead_grace": 100000}}
+                   "initial": prior, "dead_grace": dead_grace}}
 
 
 GRID_Q = [((1, 1), 2, 2, 1), ((1, 2), 1, 4, 2), ((2, 1), 3, 1, 4)]
@@ -77,7 +77,7 @@ def family_run(tier, seed):
         with open(cpath) as fh:
             fam = json.load(fh)
         fam["cached"] = True
-        fam["divergent"] = [(d[0], (tuple(d[1][0]), d[1][1], d[1][2], d[1][3]), d[2], d[3]) for d in fam["divergent"]]
+        fam["divergent"] = [(d[0], (tuple(d[1][0]), d[1][1], d[1][2], d[1][3], d[1][4]), d[2], d[3]) for d in fam["divergent"]]
         return fam
     prop = "fam"
     states = transitions = conform = 0
@@ -125,7 +125,7 @@ def family_run(tier, seed):
                 models[name]["diverged_but_accepted_by_trace_validation"] = \
                     models[name].get("diverged_but_accepted_by_trace_validation", 0) + 1
             else:
-                divergent.append((lines, (phi, w, mi, pr), o["steps"], f"replay of {name} diverged"))
+                divergent.append((lines, (phi, w, mi, pr, 100000), o["steps"], f"replay of {name} diverged"))
 
     # long random histories
     rnd = random.Random(seed)
@@ -144,11 +144,14 @@ def family_run(tier, seed):
             pr = rnd.choice([1, 2, 5, 50, 500])
             narr = rnd.choice([200, 600, 2000])
             ntr = 8 if narr == 2000 else 20
-        h = hcfg(phi, w, mi, pr)
+        # every third set: a short dead-node grace period, so that the member is removed in long silences and
+        # stale heartbeats are replayed to a node that only remembers it
+        dg = 100000 if si % 3 != 2 else [2, 3, 5][(si // 3) % 3] * max(mi, pr)   # (no draw: the parameter sequence stays as it was)
+        h = hcfg(phi, w, mi, pr, dg)
         tpath = tmp(f"detdrv_{prop}_{si}.ndjson")
         G.run_harness(["detector", json.dumps(dict(h, seed=seed * 100 + si, traces=ntr, arrivals=narr))],
                       out_path=tpath)
-        c = consts(phi, w, mi, pr, False)
+        c = consts(phi, w, mi, pr, False, dg)
         cfg = vlib.write_cfg(tmp(f"tdet_{prop}_{si}.cfg"), "TraceSpec", c, invariants=TRACE_INV,
                              properties=TRACE_PROPS, view="TraceView", post="TraceAccepted")
         traces = G.split_traces(tpath)
@@ -169,17 +172,17 @@ def family_run(tier, seed):
                     hit = ti
                     break
                 pos += len(t)
-            divergent.append((cur[hit], (phi, w, mi, pr), G.steps_of_events(cur[hit]),
+            divergent.append((cur[hit], (phi, w, mi, pr, dg), G.steps_of_events(cur[hit]),
                               f"history rejected at event {at - pos}: " + " ".join(info.get("errors", []))[:200]))
             cur = cur[:hit] + cur[hit + 1:]
             path = tmp(f"detdrv_{prop}_{si}_r.ndjson")
             G.write_traces(path, cur)
         else:
             for t in cur:
-                divergent.append((t, (phi, w, mi, pr), G.steps_of_events(t), "not validated"))
+                divergent.append((t, (phi, w, mi, pr, dg), G.steps_of_events(t), "not validated"))
         conform += acc
         drv[f"set{si}"] = {"phi": f"{phi[0]}/{phi[1]}", "window": w, "max_interval": mi, "initial": pr,
-                           "traces": len(traces), "events": nev, "accepted": acc}
+                           "dead_grace": dg, "traces": len(traces), "events": nev, "accepted": acc}
         if len(samples) < 3:
             samples.append([json.loads(x) for x in traces[0][1:4]])
         os.remove(tpath)
@@ -203,7 +206,7 @@ def run(prop, tier, seed, replay=None):
         tpath = tmp("replay_det.ndjson")
         G.run_harness(["trace", json.dumps(obj["hcfg"])],
                       stdin_text=json.dumps({"steps": obj["steps"]}) + "\n", out_path=tpath)
-        c = consts(tuple(obj["phi"]), obj["window"], obj["maxi"], obj["prior"], False)
+        c = consts(tuple(obj["phi"]), obj["window"], obj["maxi"], obj["prior"], False, obj.get("dead_grace", 100000))
         for (_, f, at) in observe(G.split_traces(tpath), c, inv, props, "replay"):
             res.violation(obj, f"{f} fails at event {at}")
         res.coverage = {"states": 1, "transitions": len(obj["steps"]),
@@ -220,16 +223,16 @@ def run(prop, tier, seed, replay=None):
     for d in divergent:
         groups.setdefault(d[1], []).append(d)
     for gi, (params, items) in enumerate(groups.items()):
-        phi, w, mi, pr = params
-        c = consts(phi, w, mi, pr, False)
+        phi, w, mi, pr, dg = params
+        c = consts(phi, w, mi, pr, False, dg)
         if not observe_batch([it[0] for it in items], c, inv, props, f"{prop}_g{gi}"):
             continue
         found = 0
         for (lines, _p, steps, note) in items:
             v = observe([lines], c, inv, props, f"{prop}_{gi}")
             for (_, f, at) in v:
-                res.violation({"kind": "detector-history", "hcfg": hcfg(phi, w, mi, pr), "phi": list(phi),
-                               "window": w, "maxi": mi, "prior": pr, "steps": steps, "formula": f},
+                res.violation({"kind": "detector-history", "hcfg": hcfg(phi, w, mi, pr, dg), "phi": list(phi),
+                               "window": w, "maxi": mi, "prior": pr, "dead_grace": dg, "steps": steps, "formula": f},
                               f"{f} fails on a real arrival history (event {at})")
             found += len(v)
             if found >= 3:
